@@ -45,9 +45,8 @@ H2_PROFILE = dict(max_connections=1, init_max_streams=5, p_rst=0.1, p_cancel=0.2
 def run(ctx, driver):
     rng = ctx.rng
     rec = propbase.Rec(ctx, ID)
-    n = 300 if ctx.quick else 3000
     for prof in H1_PROFILES:
-        concur.explore(ctx, rec, ID, prof, n, n * 25, ["C01:"])
+        concur.explore(ctx, rec, ID, prof, 300, 8000, ["C01:"])
     # HTTP/2 multiplexing
     for i in range(200 if ctx.quick else 5000):
         cfg = dict(H2_PROFILE, callers=rng.randint(2, 6), coalesce=rng.random() < 0.3)
